@@ -53,7 +53,8 @@ Why(b, obs) ==
       unread == obs.res = "unreadable"
       okres == obs.res = "ok"
   IN
-  (IF unread THEN "C01 C02 built token is not accepted by the matching parser; " ELSE "")
+  (IF unread THEN "C01 C02 " \o (IF b.layer = "prelude" THEN "C13 " ELSE "C14 ")
+                  \o "built token is not accepted / not readable by the matching parser; " ELSE "")
   \o (IF unread /\ "alt" \in DOMAIN obs /\ obs.alt \in {"nofooter", "neither"} THEN "C05 it is accepted without the footer set on the builder; " ELSE "")
   \o (IF unread /\ "alt" \in DOMAIN obs /\ obs.alt \in {"noassertion", "neither"} THEN "C06 it is accepted without the assertion set on the builder; " ELSE "")
   \o (IF ~FootBound(b, obs) THEN "C05 C01 C02 the token is bound to footer " \o obs.bound.f \o ", the builder's last footer is " \o b.footer \o "; " ELSE "")
